@@ -150,6 +150,8 @@ class VThread:
             return
         prev_proc = k.current_proc
         k.current_proc = self.owner
+        prev_thread = k.current_thread
+        k.current_thread = self
         try:
             if self.loop is None:
                 self.future.set_running_or_notify_cancel()
@@ -196,6 +198,7 @@ class VThread:
                     k.post(max(when, k.clock.now), "burst", self)
         finally:
             k.current_proc = prev_proc
+            k.current_thread = prev_thread
 
     def _must_not_idle(self, when):
         raise RuntimeError("stepped loop asked to idle")
@@ -292,6 +295,7 @@ class Kernel:
         self.max_delay = 0.0
         self.distinct_switch_points = set()
         self.current_msg = None
+        self.current_thread = None  # the virtual executor thread whose burst is running, if any
         self.pre_step_hooks = []
         self.deliver_count = 0
         self.wall_deadline = None  # generous wall-clock watchdog; firing makes the run inconclusive, never a verdict
